@@ -189,6 +189,14 @@ def chunkBy : Nat → List Nat → List Nat → Bytes → List Bytes
     let k := if s = 0 then 1 else s
     bs.take k :: chunkBy fuel all ss (bs.drop k)
 
+/-- like `chunkBy`, but a size 0 is an EMPTY chunk (a `Read` that returns `0, nil`); sizes that are all 0
+mean one chunk -/
+def chunkByZ : Nat → List Nat → List Nat → Bytes → List Bytes
+  | 0, _, _, _ => []
+  | _ + 1, _, _, [] => []
+  | fuel + 1, all, [], bs => if all.all (· == 0) then [bs] else chunkByZ fuel all all bs
+  | fuel + 1, all, s :: ss, bs => bs.take s :: chunkByZ fuel all ss (bs.drop s)
+
 def synPayload (n a b : Nat) : Bytes :=
   (List.range n).map (fun i => UInt8.ofNat ((a * i + b) % 256))
 
@@ -227,6 +235,11 @@ def step (limit : Nat) (line : String) : String :=
   | ["rd", hs, sizes] =>
     match ofHex hs, csvNat sizes with
     | some bs, some sz => showRead false (readFrame limit (chunkBy (2 * bs.length + 2) sz sz bs))
+    | _, _ => "bad-op"
+  | ["rdz", hs, sizes] =>
+    match ofHex hs, csvNat sizes with
+    | some bs, some sz =>
+      showRead false (readFrame limit (chunkByZ ((bs.length + 2) * (sz.length + 2)) sz sz bs))
     | _, _ => "bad-op"
   | ["rde", hs, sizes] =>
     -- the transport hands out its last bytes together with io.EOF
